@@ -112,6 +112,9 @@ void CommonLoop::runThisAfterLoop()
         CHECK_DELETE_RESET_OBJ(sp_run_read_event_);
         CHECK_CLOSE_RESET_FD(run_event_fd_);
     }
+    //! 唤醒请求是记在刚刚关闭的 eventfd 上的，必须随之作废；
+    //! 否则下次 runLoop() 时 commitRunRequest() 会误以为已经写过 eventfd 而不再写，跨线程 runInLoop() 的任务就再也唤不醒 Loop 了
+    has_commit_run_req_ = false;
     CPP_TBOX_VERIF_POINT("loop.after.closed", has_commit_run_req_, 0);
 }
 
